@@ -35,12 +35,30 @@ def main():
         mod.main(chk, args)
     except SystemExit:
         raise
-    except Exception:
+    except Exception as e:
         import traceback
 
         traceback.print_exc()
-        print("framework error (not a verdict)", file=sys.stderr)
-        sys.exit(2)
+        # An exception that comes out of the code under test (a frame inside $MOKAPOT_REPO/mokapot) at a point
+        # where the harness expects none: on the reviewed tree this does not happen, so the correspondence
+        # between the real code and the model no longer checks.  Verdict rule: report it (the replay names the
+        # harness stage and the traceback); we have no concrete input in hand at this level.
+        repo = os.path.realpath(os.environ.get("MOKAPOT_REPO", "/repo")) + os.sep + "mokapot" + os.sep
+        frames = traceback.extract_tb(e.__traceback__)
+        inside = [f for f in frames if os.path.realpath(f.filename).startswith(repo)]
+        if not inside:
+            print("framework error (not a verdict)", file=sys.stderr)
+            sys.exit(2)
+        harness_frames = [f for f in frames if os.sep + "harness" + os.sep in f.filename]
+        chk.corr_break("implementation-raised", dict(
+            exception=f"{type(e).__name__}: {str(e)[:300]}",
+            raised_at=f"{inside[-1].filename}:{inside[-1].lineno} in {inside[-1].name}",
+            harness_stage=(f"{harness_frames[-1].filename}:{harness_frames[-1].lineno} in {harness_frames[-1].name}"
+                           if harness_frames else "?"),
+            traceback="".join(traceback.format_exception(type(e), e, e.__traceback__))[-3000:],
+            note="the real code raised where the harness, on the reviewed tree, gets a result"))
+        chk.finish(common.build_and_audit(args.prop),
+                   "correspondence: the real code must not raise where the reviewed tree returned a result")
 
 
 if __name__ == "__main__":
